@@ -234,9 +234,14 @@ func init() {
 					continue
 				}
 				for _, r := range n.file.unsynced {
-					if strings.HasPrefix(r.tag, pre) && (pre == "" || r.tag == pre || !isDigit(r.tag[len(pre)])) {
+					if strings.HasPrefix(r.tag, pre) && (pre == "" || r.tag == pre || len(r.tag) == len(pre) || isDigit(r.tag[len(pre)])) {
 						tot += r.n
 					}
+				}
+				// writes through a mapping carry no tag: counted for the untagged query and for the
+				// put/delete query (mmap harnesses use no batches)
+				if pre == "" || pre == "pd" {
+					tot += n.file.mappedUnsynced()
 				}
 			}
 			return uint64(tot)
